@@ -115,6 +115,10 @@ def qualifier(inv, case, rec):
             return 'break-only-tour'
         if idle and all(all(a['type'] in ('departure', 'arrival') for a in t['flat']) for t in idle) and any(f in case.get('features', []) for f in ('reloads', 'resources')):
             return 'empty-tour-in-reload-problem'
+        # a recharge stop kept alive by a break that was attached to it (neither is a customer job)
+        if idle and all(any(a['type'] == 'recharge' for a in t['flat']) and any(a['type'] == 'break' for a in t['flat'])
+                        and all(a['type'] in ('departure', 'arrival', 'break', 'recharge') for a in t['flat']) for t in idle):
+            return 'recharge-and-break-only-tour'
     return 'general'
 
 
@@ -223,12 +227,42 @@ def add_clustering(case, rnd):
     return c
 
 
+def add_required_breaks(case, rnd):
+    """The same problem with the breaks of its shifts replaced by *required* breaks (reserved time: a fixed moment or an offset from the
+    departure, a duration).  Their schedule is outside the VrpModel oracle (DESIGN 10.8); the accounting of jobs and stops is judged."""
+    c = copy.deepcopy(case)
+    c['id'] = case['id'] + 'q'
+    for vt in c['problem']['fleet']['vehicles']:
+        for sh in vt['shifts']:
+            start = project.ts(sh['start']['earliest'])
+            length = (project.ts(sh['end']['latest']) - start) if sh.get('end') else 1500
+            if rnd.random() < 0.8:
+                brs = []
+                at = rnd.randint(20, max(21, length // 2))
+                for _ in range(rnd.choice([1, 1, 2])):
+                    w = rnd.choice([0, 0, 30])
+                    offset = rnd.random() < 0.4 and sh['start'].get('latest') == sh['start']['earliest']
+                    time = {'earliest': float(at), 'latest': float(at + w)} if offset else {'earliest': pgen.ts(start + at), 'latest': pgen.ts(start + at + w)}
+                    brs.append({'time': time, 'duration': float(rnd.choice([10, 30, 60]))})
+                    at += 150 + rnd.randint(0, 100)
+                # one kind of time per shift (mixing exact and offset times is rejected: recorded C10 finding)
+                kinds = {isinstance(b['time']['earliest'], str) for b in brs}
+                sh['breaks'] = brs if len(kinds) == 1 else brs[:1]
+            else:
+                sh.pop('breaks', None)
+    c['problem']['plan'].pop('relations', None)
+    c['features'] = sorted(set(c.get('features', [])) | {'required-breaks'})
+    return c
+
+
 def project_accounting(case, solution):
     """Slim record for JudgeAccounting.tla: who serves what, who is unassigned (no schedule)."""
     P = case['problem']
     jobs = [{'id': j['id'], 'kinds': [k2 for k, k2 in (('pickups', 'pickup'), ('deliveries', 'delivery'), ('services', 'service'), ('replacements', 'replacement')) for _ in (j.get(k) or [])]}
             for j in P['plan']['jobs']]
-    vehicles = [{'id': vid, 'shifts': len(v['shifts'])} for v in P['fleet']['vehicles'] for vid in v['vehicleIds']]
+    vehicles = [{'id': vid, 'shifts': len(v['shifts']),
+                 'conditional': [{'break': len(sh.get('breaks') or []), 'reload': len(sh.get('reloads') or []), 'recharge': len((sh.get('recharges') or {}).get('stations') or [])} for sh in v['shifts']]}
+                for v in P['fleet']['vehicles'] for vid in v['vehicleIds']]
     tours = [{'vehicle': t['vehicleId'], 'shift': t['shiftIndex'] + 1, 'acts': [{'job': a['jobId'], 'type': a['type']} for s in t['stops'] for a in s['activities']]} for t in solution.get('tours', [])]
     un = [{'job': u['jobId'], 'nreasons': len(u.get('reasons') or [])} for u in solution.get('unassigned') or []]
     return {'id': case['id'], 'jobs': jobs, 'vehicles': vehicles, 'tours': tours, 'unassigned': un}
@@ -250,6 +284,8 @@ def clustering_pass(pid, tier, cases, rnd, verdict):
     """C02 only: problems with vicinity clustering; the accounting of jobs is judged by JudgeAccounting.tla."""
     picked = [c for c in cases if rnd.random() < (0.12 if tier == 'quick' else 0.15) or (c.get('problem', {}).get('plan', {}).get('relations') and rnd.random() < 0.5)]
     ccases = [add_clustering(c, rnd) for c in picked]
+    # required breaks (reserved time): accounting only, as for clustering
+    ccases += [add_required_breaks(c, rnd) for c in cases if not c.get('problem', {}).get('plan', {}).get('relations') and rnd.random() < (0.1 if tier == 'quick' else 0.12)]
     out = solve(pid + '-c', ccases, jobs=10) if ccases else {}
     recs, clustered = [], 0
     for c in ccases:
@@ -268,6 +304,16 @@ def clustering_pass(pid, tier, cases, rnd, verdict):
         c = copy.deepcopy(base); c['id'] = 'canary:both'; c['unassigned'].append({'job': a['job'], 'nreasons': 1}); cans.append((c, 'PartitionJobs'))
         c = copy.deepcopy(base); c['id'] = 'canary:foreign'; c['tours'][0]['acts'].append({'job': 'ghost', 'type': 'delivery'}); cans.append((c, 'NoForeignIds'))
         c = copy.deepcopy(base); c['id'] = 'canary:vehicle'; c['tours'][0]['vehicle'] = 'nobody'; cans.append((c, 'TourNamesVehicleShift'))
+        c = copy.deepcopy(base); c['id'] = 'canary:ghost-break'
+        for v in c['vehicles']:
+            for sh in v['conditional']: sh['break'] = 0
+        c['tours'][0]['acts'].insert(1, {'job': 'break', 'type': 'break'}); cans.append((c, 'ConditionalWithinDefined'))
+        pd = next((r for r in recs if any(a['type'] == 'pickup' and any(b['type'] == 'delivery' and b['job'] == a['job'] for b in t['acts']) for t in r['tours'] for a in t['acts'])), None)
+        if pd:
+            c = copy.deepcopy(pd); c['id'] = 'canary:delivery-first'
+            for t in c['tours']:
+                t['acts'].reverse()
+            cans.append((c, 'PickupBeforeDelivery'))
     d = os.path.join(common.WORK, pid + '-c')
     fj = os.path.join(d, 'accounting.ndjson')
     common.write_ndjson(fj, recs + [c[0] for c in cans])
@@ -288,7 +334,8 @@ def clustering_pass(pid, tier, cases, rnd, verdict):
         # the recorded defects of conditional jobs do not depend on clustering: same key as in the other passes
         key = '%s/%s/%s' % (pid, name, q) if q != 'general' else '%s/Clustered%s/general' % (pid, name)
         verdict.add(key, 'record %s (vicinity clustering) violates %s' % (rid, name), {'case': by_id[rid], 'solution': out[rid]['solution'], 'invariant': name})
-    return {'clustering_cases': len(ccases), 'judged': len(recs), 'solutions_with_clustered_stops': clustered, 'status': dict(collections.Counter(o['status'] for o in out.values()))}
+    return {'clustering_cases': len(ccases), 'judged': len(recs), 'solutions_with_clustered_stops': clustered, 'required_break_cases': sum(1 for c in ccases if 'required-breaks' in c.get('features', [])),
+            'required_break_solutions_with_break_stops': sum(1 for c in ccases if 'required-breaks' in c.get('features', []) and out[c['id']]['status'] == 'ok' and any(a['type'] == 'break' for t in out[c['id']]['solution'].get('tours', []) for st in t['stops'] for a in st['activities'])), 'status': dict(collections.Counter(o['status'] for o in out.values()))}
 
 
 def canaries(rec):
